@@ -24,6 +24,11 @@ import (
 var defaultErrorHandler = builtin(defaultErrorHandlerFn)
 
 func defaultErrorHandlerFn(intp *Interpreter) error {
+	if len(intp.errors) == 0 {
+		// The handler was fetched from errordict and executed directly,
+		// there is no pending error.  Like the standard handlers, stop.
+		return errStop
+	}
 	return intp.errors[len(intp.errors)-1]
 }
 
